@@ -176,10 +176,10 @@ func nfEqual(a, b nfFrac) bool {
 
 // nfBuilder turns an AST expression into a normal form.
 type nfBuilder struct {
-	info   *types.Info               // nil for reference formulas
-	input  types.Object              // the closure's input parameter (info != nil)
-	locals map[types.Object]ast.Expr // single-assignment locals of the closure
-	depth  int
+	info  *types.Info  // nil for reference formulas
+	input types.Object // the closure's input parameter (info != nil)
+	env   aenv         // what the closure's locals are bound to where the expression is evaluated (absint.go)
+	depth int
 }
 
 var nfFuncs = map[string]string{"Exp": "exp", "Tanh": "tanh", "Sin": "sin", "Abs": "abs"}
@@ -237,8 +237,12 @@ func (nb *nfBuilder) build(e ast.Expr) (nfFrac, error) {
 		if obj == nb.input {
 			return nfAtom("x"), nil
 		}
-		if l, ok := nb.locals[obj]; ok {
-			return nb.build(l)
+		if l, ok := nb.env[obj]; ok {
+			if l.konst != nil {
+				return nfConst(*l.konst), nil
+			}
+			// the bound expression is normalised under the bindings that were in force at its assignment
+			return (&nfBuilder{info: nb.info, input: nb.input, env: l.env, depth: nb.depth}).build(l.expr)
 		}
 		return nfFrac{}, fmt.Errorf("identifier %s is neither the input nor a constant local", x.Name)
 	case *ast.UnaryExpr:
